@@ -15,8 +15,8 @@ EXPLANATION = (
 )
 BOUNDS = {
     "quick": "step: 6 ruler layouts (1-3 rules incl. duplicate names, fixed alt sets over chains x,y), symbolic enabled flags, cache cold/warm symbolic, "
-             "11 operations with arguments over {a,b,c,zz}, ignoreInvalid symbolic, str-vs-list argument symbolic; histories of 2 operations from "
-             "a 6-operation menu; facade: 1 call over 5 names (1-2 names per call)",
+             "11 operations with arguments over {a,b,c,zz}, ignoreInvalid symbolic, str-vs-list argument symbolic; histories of 2 operations (4 names) and of 3 operations (2 names) from "
+             "an 8-operation menu; facade: 1 call over 5 names (1-2 names per call)",
     "thorough": "same step jobs; histories of 3 operations; facade: 2 calls",
 }
 OUTSIDE = "rulers with more than 3 rules; more than 2 names per enable/disable call; histories longer than 3 (covered by the inductive step for coherence only)"
@@ -220,7 +220,7 @@ def _hist_free(params):
         lo, hi = 0, len(HOPS) - 1
         if st == 0 and params.get("first") is not None:
             lo = hi = params["first"]
-        pmax = 3 if params["k"] <= 2 else 1  # k=3: target name is "a" or the unknown "zz"
+        pmax = 3 if params["k"] <= 2 else 1  # k=3: target name is "a" or "b"
         fr += [Free(f"op{st}", kind="int", lo=lo, hi=hi), Free(f"p{st}", kind="int", lo=0, hi=pmax), Free(f"g{st}", kind="bool")]
     return fr
 
@@ -237,9 +237,11 @@ def _hist_run(params, values):
     trace = []
     for s in range(params["k"]):
         op = HOPS[realize(values[f"op{s}"])]
-        p_ = values[f"p{s}"] if params["k"] <= 2 else 3 * values[f"p{s}"]
+        p_ = values[f"p{s}"]  # k=3: the target is "a" or "b"; the second name of two-name calls alternates between "zz" and "b"
         v = {"a1": p_, "a2": 3 if s % 2 == 0 else 1, "ign": values[f"g{s}"], "ax": False, "ay": False}
         args = _build_args(op, v, f"fnS{s}")
+        if op in ("before", "after"):
+            args["name"] = f"new{s}"  # inserted rules get fresh names, so that a stale position cannot hide behind a duplicate
         snapshot = [row[:2] + [row[2], list(row[3])] for row in model]
         m_raised, m_res = model_apply(model, op, args)
         raised = False
@@ -370,6 +372,7 @@ def jobs(tier, seed):
     if tier == "quick":
         for first in range(len(HOPS)):
             jobs.append({"harness": "history", "params": {"k": 2, "first": first}, "weight": 20, "cpu_cap": 3000, "wall_cap": 4000})
+            jobs.append({"harness": "history", "params": {"k": 3, "first": first}, "weight": 30, "cpu_cap": 3000, "wall_cap": 4000})
     else:
         for first in range(len(HOPS)):
             jobs.append({"harness": "history", "params": {"k": 3, "first": first}, "weight": 40, "cpu_cap": 6000, "wall_cap": 7200})
@@ -383,7 +386,5 @@ def jobs(tier, seed):
 
 def thorough_extra(seed):
     jobs = []
-    for first in range(len(HOPS)):
-        jobs.append({"harness": "history", "params": {"k": 3, "first": first}, "weight": 40, "cpu_cap": 6000, "wall_cap": 7200})
     jobs.append({"harness": "facade", "params": {"cfg": S.JS, "k": 2, "warm": True, "name": "js-k2"}, "weight": 60, "cpu_cap": 9000, "wall_cap": 10000})
     return jobs
